@@ -2,10 +2,15 @@
    /repo on every run (Gen.DegreeTable, by executing degree_meta.rs); the
    theorems below are re-checked against them, so an edited table entry breaks
    an obligation here. *)
-From Coq Require Import ZArith List Bool.
+From Coq Require Import ZArith List Bool Lia Sorting.Sorted.
 Require Import Model.Base Model.Ir Model.Propagate Gen.DegreeTable Spec.PolyDeg.
 Require Import Model.Justify Model.DegJustify Spec.DegSem Proofs.PolyDegProofs Proofs.DegreeProofs Proofs.DegGraphProofs Proofs.ValueProofs.
 Require Model.Lift Spec.CfgSpec Spec.CtlSpec Proofs.CtlStructure.
+Require Import Model.SsaCheck Model.DegGraph Model.DegWf Spec.SsaDomSpec Spec.DegSemDom Spec.DegRun.
+Require Import Proofs.DegGraphIdom Proofs.DegGraphTableFree Proofs.DegRunProofs Proofs.DegSemTotal Proofs.DegSemVariant.
+Require Proofs.MirrorsDom Proofs.CtlBridge Proofs.CtlBridgeExample.
+Require Model.Ssa Model.SsaPre Model.LiftFull Proofs.CtlChain Proofs.CtlChainExample.
+Require Import Proofs.DegRunBranch.
 Import ListNotations.
 Local Open Scope Z_scope.
 
@@ -71,17 +76,89 @@ Theorem C07_inf_bound_sound : forall (V : Type) line p a b (F : V -> Z),
 Proof. exact inf_bound_sound. Qed.
 Print Assumptions C07_inf_bound_sound.
 
-(* GRAPH LEVEL: on a graph accepted by the validator DegJustify.djust_cfg (which
-   the check runs on the implementation's real annotated graph; array forms
-   included), in every state reachable by the step relation of Spec.DegSem - cells
-   hold their value, element by element, as a function of the valuation; signals and
-   component ports are independent indeterminates; never-assigned locals hold zeros;
-   the control flow does not depend on the valuation - the upper end of every degree
-   range attached to a node bounds the degree of the node's value, of EVERY element
-   of it for an array.  For a range whose upper end is Quadratic this is exactly
-   "the expression is a polynomial of total degree at most two in the signals", the
-   claim behind `unnecessary signal assignment`.  [name_code] places component ports
-   in the family of a component; the statement holds for every such placement. *)
+(* GRAPH LEVEL.  WHAT IS PROVED AND WHAT IS ASSUMED (third audit).
+
+   The semantics.  Spec.DegSem is a LOCK-STEP SYMBOLIC relation: a store holds every cell
+   as a function of the valuation (element by element for an array; signals and component
+   ports are independent indeterminates; never-assigned locals hold zeros), and a step
+   fires ONE statement of the graph for ALL valuations at once - any statement, at any
+   time: the relation has no program counter.  An assignment stores the denotation of its
+   right-hand side; a phi copies, for every valuation, one of its arguments, and the
+   choice may depend on the valuation only if one of the branch conditions [decides] names
+   is denotable and varies with the valuation in the current store (signal-dependent
+   control IS covered by the relation: since /repo D18 the analysis accounts for it).
+
+   Proved about it, for every graph accepted by the validator DegJustify.djust_cfg (which
+   the check runs on the implementation's real annotated graph, array forms included):
+     (1) C07_validated_graph_degrees_true - in every reachable store the upper end of every
+         degree range attached to a node bounds the degree of the node's value, of EVERY
+         element of it for an array.  For a range whose upper end is Quadratic this is
+         exactly "polynomial of total degree at most two in the signals", the claim behind
+         `unnecessary signal assignment`.  Holds for ANY table of the right shape; what the
+         relation MEANS depends on the table, hence:
+     (2) C07_decides_is_dominance_control_dependence / C07_validated_graph_degrees_true_table_free
+         - with a consistent graph and THE immediate-dominator table (two decidable
+         hypotheses, Model.DegGraph, evaluated by the check on every graph) the table walk
+         [decides] is the table-free notion "ends a block q with idom(j) dom q dom p, p a
+         predecessor of j" over path-based dominance, and (1) holds for the relation
+         Spec.DegSemDom that never mentions a table.
+     (3) C07_same_path_runs_represented / C07_concrete_runs_claims_true - CONCRETE
+         EXECUTIONS (Spec.DegRun: one valuation, a store of numbers, a path of blocks that
+         follows the branch conditions, phis copy the version that arrives along the edge):
+         every family of concrete runs, one per valuation, that follow THE SAME path of
+         blocks is represented by one reachable store of the lock-step relation; so every
+         claim of a validated graph is true of the function  valuation |-> concrete value.
+         Loops and branches are included as long as all valuations of the family take the
+         same way (constant trip counts, conditions that do not separate the family).
+     (3') C07_diverging_runs_represented / C07_diverging_runs_claims_true - families whose
+         paths DIFFER between valuations, for LOOP-FREE graphs (every run visits the blocks
+         in increasing order) in single-assignment form: the lock-step relation fires every
+         visited block for all valuations (speculatively for those that do not visit it),
+         a join phi copies for each valuation the argument that arrives along ITS path.
+         ASSUMED of the family there ([picks_decided]): two runs that enter a block with
+         different arriving arguments enter a join and differ on the value of a condition
+         [decides] names, in the stores with which they enter it - the control-dependence
+         assumption in concrete terms.
+     (4) C07_undenotable_means_not_yet_assigned, C07_undenotable_unconstrained_variant_refuted
+         - "a deciding condition without denotation does not vary" is an over-approximation
+         on stores that start total (a condition is undenotable only while it reads a local
+         whose assignment has not fired: nobody has evaluated it), and the variant "leaves
+         the choice unconstrained" is unsound for a relation without program counter.
+
+   NOT PROVED - OPEN (reported under coverage.open_statements by the check):
+     (a) families of concrete runs whose paths DIFFER: proved for loop-free graphs under
+         the assumption [picks_decided] (3').  OPEN: (i) [picks_decided] itself - its graph
+         half is C07_lifted_split_is_named_by_decides (the block where two runs part is
+         named by [decides]); that SSA form makes the arriving argument a function of the
+         incoming edge, and that the parting block's condition still has the value it
+         branched on in the store with which the join is entered, are not proved;
+         (ii) graphs WITH LOOPS whose runs differ inside the loop bodies but enter the loop
+         headers in the same sequence: the schedule of (3') overwrites a cell on its next
+         iteration for valuations that skip the assignment then, which is harmless only
+         because SSA form never lets them read it again (needs C14's "every read names the
+         running version"; not done).
+         For loops with a valuation-dependent trip count no lock-step store represents the
+         family at all (a valuation that has left the loop cannot keep its value while the
+         body fires again for the others); the claims are nevertheless believed true there
+         because the header phis are then judged with a non-constant deciding condition
+         (the loop condition ends the header block, which is on the dominator chain of the
+         back edge) and get upper end NonQuadratic, and everything computed from them
+         inherits it.  The check's oracle judges such programs per iteration context: a
+         claim is compared on the runs that reach the node after the same sequence of
+         loop-header entries (evidence key degree_oracle; contexts reached by too few runs
+         are counted as discarded_signal_dependent_paths).
+     (b) that [decides] names EVERY block whose decision can change the incoming edge is
+         PROVED for an IR graph that has, block by block, the predecessor and successor lists
+         of a lifted skeleton (C07_lifted_split_is_named_by_decides, from
+         C07_lifted_graphs_control_dependence through the true table), and carried along
+         the chain of the mirrors - lifting (Model.LiftFull.try_lift_impl), SSA conversion
+         (Model.Ssa.into_ssa), propagation - by C07_chain_split_is_named_by_decides: the
+         annotated graph has the lists of the lifted skeleton of the body.  ASSUMED there:
+         the two decidable hypotheses of C14_construction_is_erasure (SsaPre.phi_free,
+         SsaPre.decls_ok: evaluated by C14's check), and, as everywhere, that the mirrors
+         are the implementation (correspondence, per run).
+   [name_code] places component ports in the family of a component; the statements hold
+   for every such placement. *)
 Theorem C07_validated_graph_degrees_true :
   forall (V : Type) (line : V -> V -> Z -> V) (p : Z)
          (sem2 : infix_op -> Z -> Z -> Z) (sem1 : prefix_op -> Z -> Z) (call_sem : ident -> list Z -> Z)
@@ -134,6 +211,225 @@ Theorem C07_lifted_graphs_control_dependence :
   forall b j : nat, CtlSpec.can_split g b j -> CtlSpec.is_join g j -> CtlSpec.on_dom_chain g j b.
 Proof. exact CtlStructure.lifted_control_dependence. Qed.
 Print Assumptions C07_lifted_graphs_control_dependence.
+
+(* (2) THE TABLE WALK IS CONTROL DEPENDENCE OVER TRUE DOMINATORS.  On a consistent graph
+   (b_index = position, predecessor lists exactly the inverse of the successor lists, entry
+   without predecessor, every block reachable) and with the table the mirror of
+   DominatorTree::new computes on it (which C15 proves to be the path-based immediate
+   dominators), a condition is named by the table walk [decides] iff it ends a block q
+   that dominates a predecessor p of the join and is dominated by the immediate dominator
+   of the join - dominance being "lies on every walk from the entry block". *)
+Theorem C07_decides_is_dominance_control_dependence :
+  forall c idom, graph_consistent c = true -> idom_is_dominator_table c idom = true -> idom_shape c idom = true ->
+  forall ij j cond, nth_error (c_blocks c) ij = Some j ->
+  (decides c idom j cond <-> decides_dom c ij j cond).
+Proof. exact decides_iff_decides_dom. Qed.
+Print Assumptions C07_decides_is_dominance_control_dependence.
+
+(* ... and the graph-level theorem for the relation that never mentions a table *)
+Theorem C07_validated_graph_degrees_true_table_free :
+  forall (V : Type) (line : V -> V -> Z -> V) (p : Z)
+         (sem2 : infix_op -> Z -> Z -> Z) (sem1 : prefix_op -> Z -> Z) (call_sem : ident -> list Z -> Z)
+         (name_code : ident -> Z),
+  (forall op, op_den p op (sem2 op)) -> (forall op, prefix_den p op (sem1 op)) ->
+  forall c idom,
+  graph_consistent c = true -> idom_is_dominator_table c idom = true -> djust_cfg c idom = true ->
+  forall s0 s e F r,
+  finit_ok V line p c s0 -> freachable_dom V p sem2 sem1 call_sem name_code c s0 s ->
+  djust_expr c e = true -> den V p sem2 sem1 call_sem name_code s e = Some F -> expr_deg e = Some r ->
+  forall i, SemDeg V line p (snd r) (F i).
+Proof. exact justified_degrees_true_table_free. Qed.
+Print Assumptions C07_validated_graph_degrees_true_table_free.
+
+(* (3) CONCRETE EXECUTIONS ARE REPRESENTED (valuation-independent control).  A family of
+   concrete runs of Spec.DegRun, one per valuation rho, all along the same path pi, started
+   in the stores  s0 rho = the initial family S0 taken at rho, ends in stores that are ONE
+   store S reachable by the lock-step relation, taken at rho: for every name x either
+   neither has a cell or  s rho x  at every position i  is  F i rho  for the family F of S. *)
+Theorem C07_same_path_runs_represented :
+  forall (V : Type) (p : Z) (sem2 : infix_op -> Z -> Z -> Z) (sem1 : prefix_op -> Z -> Z)
+         (call_sem : ident -> list Z -> Z) (name_code : ident -> Z)
+         (c : cfg) (idom : list (option N)) (S0 : fstore V) (L0 : vmap) (pi : list nat) (s0 s : V -> cstore),
+  (forall rho, rel_store V rho (s0 rho) S0) ->
+  (forall rho, cexec_path p sem2 sem1 call_sem name_code c L0 (s0 rho) pi = Some (s rho)) ->
+  exists S, freachable V p sem2 sem1 call_sem name_code c idom S0 S /\ forall rho, rel_store V rho (s rho) S.
+Proof. exact same_path_runs_represented. Qed.
+Print Assumptions C07_same_path_runs_represented.
+
+(* ... hence every claim of a validated graph is true of the concrete values: if the
+   expression e (any expression the validator accepts: every expression of the graph) has
+   the value  val rho  at the end of the run of valuation rho, then, position by position,
+   valuation |-> val rho i  has the degree the claim says. *)
+Theorem C07_concrete_runs_claims_true :
+  forall (V : Type) (line : V -> V -> Z -> V) (p : Z)
+         (sem2 : infix_op -> Z -> Z -> Z) (sem1 : prefix_op -> Z -> Z) (call_sem : ident -> list Z -> Z)
+         (name_code : ident -> Z),
+  (forall op, op_den p op (sem2 op)) -> (forall op, prefix_den p op (sem1 op)) ->
+  forall (c : cfg) (idom : list (option N)), djust_cfg c idom = true ->
+  forall (S0 : fstore V) (L0 : vmap) (pi : list nat) (s0 s : V -> cstore),
+  finit_ok V line p c S0 ->
+  (forall rho, rel_store V rho (s0 rho) S0) ->
+  (forall rho, cexec_path p sem2 sem1 call_sem name_code c L0 (s0 rho) pi = Some (s rho)) ->
+  forall e r (val : V -> cell),
+  djust_expr c e = true -> expr_deg e = Some r ->
+  (forall rho, cval p sem2 sem1 call_sem name_code (s rho) e = Some (val rho)) ->
+  forall i, SemDeg V line p (snd r) (fun rho => val rho i).
+Proof. exact concrete_runs_claims_true. Qed.
+Print Assumptions C07_concrete_runs_claims_true.
+
+(* (3') DIVERGING RUNS, loop-free.  A family of concrete runs, the run of valuation rho along
+   its own path  pth rho : strictly increasing (no block twice: the graph is loop-free and
+   its blocks are numbered along the edges), finitely many path classes each with a
+   representative in [reps]; every local assigned by at most one statement
+   ([single_assignment]) and not defined at the start.  If two runs that enter a block with
+   different arriving phi arguments always enter a join and differ there on a deciding
+   condition ([picks_decided]), the final stores are contained in ONE store reachable by the
+   lock-step relation: every cell a run has holds, position by position, the family's value
+   at its valuation. *)
+Theorem C07_diverging_runs_represented :
+  forall (V : Type) (p : Z) (sem2 : infix_op -> Z -> Z -> Z) (sem1 : prefix_op -> Z -> Z)
+         (call_sem : ident -> list Z -> Z) (name_code : ident -> Z)
+         (c : cfg) (idom : list (option N)) (S0 : fstore V) (L0 : vmap)
+         (pth : V -> list nat) (s0 s : V -> cstore) (reps : list V),
+  (forall rho, StronglySorted lt (pth rho)) ->
+  (forall rho i, In i (pth rho) -> (i < length (c_blocks c))%nat) ->
+  (forall rho, exists r, In r reps /\ pth r = pth rho) ->
+  single_assignment c -> targets_start_undefined V c S0 ->
+  (forall rho, rel_store V rho (s0 rho) S0) ->
+  (forall rho, cexec_path p sem2 sem1 call_sem name_code c L0 (s0 rho) (pth rho) = Some (s rho)) ->
+  picks_decided V p sem2 sem1 call_sem name_code c idom L0 pth s0 ->
+  exists S, freachable V p sem2 sem1 call_sem name_code c idom S0 S /\ forall rho, sub_store V rho (s rho) S.
+Proof. exact diverging_runs_represented. Qed.
+Print Assumptions C07_diverging_runs_represented.
+
+(* ... hence the claims of a validated graph are true of the concrete values of such a family *)
+Theorem C07_diverging_runs_claims_true :
+  forall (V : Type) (line : V -> V -> Z -> V) (p : Z)
+         (sem2 : infix_op -> Z -> Z -> Z) (sem1 : prefix_op -> Z -> Z) (call_sem : ident -> list Z -> Z)
+         (name_code : ident -> Z),
+  (forall op, op_den p op (sem2 op)) -> (forall op, prefix_den p op (sem1 op)) ->
+  forall (c : cfg) (idom : list (option N)) (S0 : fstore V) (L0 : vmap)
+         (pth : V -> list nat) (s0 s : V -> cstore) (reps : list V),
+  djust_cfg c idom = true -> finit_ok V line p c S0 ->
+  (forall rho, StronglySorted lt (pth rho)) ->
+  (forall rho i, In i (pth rho) -> (i < length (c_blocks c))%nat) ->
+  (forall rho, exists r, In r reps /\ pth r = pth rho) ->
+  single_assignment c -> targets_start_undefined V c S0 ->
+  (forall rho, rel_store V rho (s0 rho) S0) ->
+  (forall rho, cexec_path p sem2 sem1 call_sem name_code c L0 (s0 rho) (pth rho) = Some (s rho)) ->
+  picks_decided V p sem2 sem1 call_sem name_code c idom L0 pth s0 ->
+  forall e r (val : V -> cell),
+  djust_expr c e = true -> expr_deg e = Some r ->
+  (forall rho, cval p sem2 sem1 call_sem name_code (s rho) e = Some (val rho)) ->
+  forall i, SemDeg V line p (snd r) (fun rho => val rho i).
+Proof. exact diverging_runs_claims_true. Qed.
+Print Assumptions C07_diverging_runs_claims_true.
+
+(* (4) WHAT "NO DENOTATION" MEANS.  From a total initial store (every name the steps cannot
+   assign has a cell) an expression is undenotable in a reachable store only if it holds a
+   phi below the top of a statement (never, in a graph handed to propagation:
+   DegWf.phi_top_stmt) or reads an assignable local whose assignment has not fired. *)
+Theorem C07_undenotable_means_not_yet_assigned :
+  forall (V : Type) (p : Z) (sem2 : infix_op -> Z -> Z -> Z) (sem1 : prefix_op -> Z -> Z)
+         (call_sem : ident -> list Z -> Z) (name_code : ident -> Z) (c : cfg) (idom : list (option N)) S0 S e,
+  finit_total V c S0 -> freachable V p sem2 sem1 call_sem name_code c idom S0 S ->
+  den V p sem2 sem1 call_sem name_code S e = None ->
+  phi_free e = false \/ exists x, In x (expr_reads e) /\ S x = None /\ assignable c x = true.
+Proof. exact den_none_reads_unassigned. Qed.
+Print Assumptions C07_undenotable_means_not_yet_assigned.
+
+(* ... and the variant of the relation in which an undenotable deciding condition leaves
+   the phi choice unconstrained (asked for by the third audit) is UNSOUND, because the
+   relation has no program counter: on the validated graph
+     c.1 = 5; if (c.1 == 1) {x.1 = 1} else {x.2 = 2}; x.3 = phi(x.1, x.2); b <-- x.3
+   the join phi may fire before `c.1 = 5`, with a valuation-dependent choice, and the
+   rightly validated claim "x.3 is constant" fails - from a TOTAL initial store. *)
+Theorem C07_undenotable_unconstrained_variant_refuted :
+  forall (sem2 : infix_op -> Z -> Z -> Z) sem1 call_sem name_code,
+  djust_cfg vgraph vidom = true /\ finit_ok Z vline 7 vgraph vS0 /\ finit_total Z vgraph vS0 /\
+  exists S F,
+    freachable' Z 7 sem2 sem1 call_sem name_code vgraph vidom vS0 S /\
+    djust_expr vgraph (EVar (vx 3) (vk vcc)) = true /\
+    den Z 7 sem2 sem1 call_sem name_code S (EVar (vx 3) (vk vcc)) = Some F /\
+    expr_deg (EVar (vx 3) (vk vcc)) = Some (DConst, DConst) /\
+    ~ SemDeg Z vline 7 DConst (F []).
+Proof. exact undenotable_unconstrained_refuted. Qed.
+Print Assumptions C07_undenotable_unconstrained_variant_refuted.
+
+(* THE CONTROL-DEPENDENCE FACT, FOR [decides] ITSELF.  In an IR graph c that has, block by
+   block, the predecessor and successor lists of the skeleton graph g lifting produces
+   (dom_graph_of c = to_dom g), consistent and with the true immediate-dominator table:
+   every block b whose decision can change the edge along which the join j is entered
+   (CtlSpec.can_split: two walks from b to j that share nothing but their ends), if it
+   ends with a condition, has that condition among those the table walk of Spec.DegSem
+   names for j.  So the phi choice of Spec.DegSem may vary exactly under the conditions
+   that can make two executions enter the join differently - by theorem, not by audit. *)
+Theorem C07_lifted_split_is_named_by_decides :
+  forall (c : cfg) (idom : list (option N)) (g : list Lift.block),
+  dom_graph_of c = MirrorsDom.to_dom g ->
+  graph_consistent c = true -> idom_is_dominator_table c idom = true -> idom_shape c idom = true ->
+  forall body : Lift.sk, Lift.lift body = Base.Ok g ->
+  forall (j : nat) (bj : block) (b : nat) (bb : block) (m : meta) (cond : expr) (t : N) (f : option N),
+  nth_error (c_blocks c) j = Some bj -> nth_error (c_blocks c) b = Some bb ->
+  CtlSpec.can_split g b j -> CtlSpec.is_join g j ->
+  last (b_stmts bb) (SLog m []) = SIf m cond t f ->
+  decides c idom bj cond.
+Proof. exact CtlBridge.lifted_split_decides. Qed.
+Print Assumptions C07_lifted_split_is_named_by_decides.
+
+(* its hypotheses are satisfiable on the diamond with a phi under `if (a == 1)` (the graph
+   of C07_control_dependence_matters, Proofs.CtlBridgeExample.exb_graph): it has the lists
+   of the lifted skeleton of `if (c1) {s2} else {s3}; s4`, block 0 splits the join 3, and
+   the theorem yields that `a == 1` is a deciding condition of the join *)
+Example C07_lifted_split_example :
+  Lift.lift CtlBridgeExample.exb_body = Base.Ok CtlBridgeExample.exb_skel /\
+  dom_graph_of CtlBridgeExample.exb_graph = MirrorsDom.to_dom CtlBridgeExample.exb_skel /\
+  graph_consistent CtlBridgeExample.exb_graph = true /\
+  idom_is_dominator_table CtlBridgeExample.exb_graph CtlBridgeExample.exb_idom = true /\
+  djust_cfg CtlBridgeExample.exb_graph CtlBridgeExample.exb_idom = true /\
+  CtlSpec.can_split CtlBridgeExample.exb_skel 0 3 /\ CtlSpec.is_join CtlBridgeExample.exb_skel 3 /\
+  decides CtlBridgeExample.exb_graph CtlBridgeExample.exb_idom CtlBridgeExample.exb_join CtlBridgeExample.exb_cond.
+Proof. exact CtlBridgeExample.bridge_example. Qed.
+
+(* ... ALONG THE WHOLE CHAIN of the mirrors.  For every body that the mirror of
+   try_lift_impl lifts, whose erased graph the mirror of into_ssa converts (with ANY frontier
+   and children lists) and the mirror of propagation annotates (ANY budgets): on the
+   annotated graph c2, consistent and with its true table, every block whose decision can
+   change the edge along which a join is entered - can_split on the skeleton graph
+   Model.Lift.lift builds from the skeleton of the body - and that ends with a condition has
+   that condition among those [decides] names for the join. *)
+Theorem C07_chain_split_is_named_by_decides :
+  forall (key : meta -> nat) kind params pfile ploc body (r : LiftFull.lifted) frontier children (c1 : cfg)
+         (kv kd : nat) (q : Z) (idom : list (option N)) (c2 : cfg),
+  LiftFull.try_lift_impl kind params pfile ploc body = Base.Ok r ->
+  SsaPre.phi_free (LiftFull.erase_cfg (LiftFull.l_cfg r)) = true ->
+  SsaPre.decls_ok (LiftFull.erase_cfg (LiftFull.l_cfg r)) = true ->
+  Ssa.into_ssa frontier children (LiftFull.erase_cfg (LiftFull.l_cfg r)) = Ssa.SOk c1 ->
+  propagate kv kd q idom c1 = Base.Ok c2 ->
+  graph_consistent c2 = true -> idom_is_dominator_table c2 idom = true -> idom_shape c2 idom = true ->
+  let g := map (LiftFull.skel_block key) (LiftFull.xc_blocks (LiftFull.l_cfg r)) in
+  forall (j : nat) (bj : block) (b : nat) (bb : block) (m : meta) (cond : expr) (t : N) (f : option N),
+  nth_error (c_blocks c2) j = Some bj -> nth_error (c_blocks c2) b = Some bb ->
+  CtlSpec.can_split g b j -> CtlSpec.is_join g j ->
+  last (b_stmts bb) (SLog m []) = SIf m cond t f ->
+  decides c2 idom bj cond.
+Proof. exact CtlChain.chain_split_decides. Qed.
+Print Assumptions C07_chain_split_is_named_by_decides.
+
+(* its hypotheses are satisfiable:  var x = 0; if (x < 3) { x = 1; } else { x = 2; }  x = x + 4;
+   as an AST (Proofs.CtlChainExample.cc_body) goes through the three mirrors; SSA conversion
+   puts a phi for x at the join (block 3); block 0 splits the join, and the theorem yields
+   that `x.0 < 3` is a deciding condition of it *)
+Example C07_chain_example :
+  LiftFull.try_lift_impl KTemplate [] (Some 0%N) (10%N, 12%N) CtlChainExample.cc_body = Base.Ok CtlChainExample.cc_r /\
+  SsaPre.phi_free CtlChainExample.cc_c0 = true /\ SsaPre.decls_ok CtlChainExample.cc_c0 = true /\
+  Ssa.into_ssa CtlChainExample.cc_frontier CtlChainExample.cc_children CtlChainExample.cc_c0 = Ssa.SOk CtlChainExample.cc_c1 /\
+  propagate 9 9 7 CtlChainExample.cc_idom CtlChainExample.cc_c1 = Base.Ok CtlChainExample.cc_c2 /\
+  graph_consistent CtlChainExample.cc_c2 = true /\ idom_is_dominator_table CtlChainExample.cc_c2 CtlChainExample.cc_idom = true /\
+  idom_shape CtlChainExample.cc_c2 CtlChainExample.cc_idom = true /\
+  CtlSpec.can_split CtlChainExample.cc_g 0 3 /\ CtlSpec.is_join CtlChainExample.cc_g 3 /\
+  decides CtlChainExample.cc_c2 CtlChainExample.cc_idom CtlChainExample.cc_join CtlChainExample.cc_cond.
+Proof. exact CtlChainExample.chain_example. Qed.
 
 (* non-vacuity for arrays: t.0 = [1, 2]; b <-- t.0[IDX] with a the signal. Reading at
    the literal index 0 may carry the array's constant range; reading at the signal a
@@ -224,3 +520,143 @@ Example C07_nested_if_inner_branch_decides_outer_join :
   CtlSpec.can_split CtlStructure.ex_nest_g 1 5 /\ CtlSpec.is_join CtlStructure.ex_nest_g 5 /\
   CtlSpec.on_dom_chain CtlStructure.ex_nest_g 5 1.
 Proof. exact CtlStructure.nested_if_example. Qed.
+
+(* ---------- the hypotheses of the theorems of the third audit are satisfiable on the
+   diamond with a phi under the signal-dependent branch `if (a == 1)` ---------- *)
+Definition exr_graph : cfg := exc_graph (Some (DNonQuad, DNonQuad)) (Some (DConst, DNonQuad)).
+Definition exr_idom : list (option N) := [None; Some 0%N; Some 0%N; Some 0%N].
+
+(* the graph is consistent, the table is the computed one, the validator accepts; a table
+   of the right SHAPE that is not the dominator table (block 3 under block 1) is refused by
+   idom_is_dominator_table although idom_shape accepts it *)
+Example C07_dominator_hypotheses_example :
+  graph_consistent exr_graph = true /\ idom_is_dominator_table exr_graph exr_idom = true /\
+  djust_cfg exr_graph exr_idom = true /\
+  idom_is_dominator_table exr_graph [None; Some 0%N; Some 0%N; Some 1%N] = false /\
+  idom_shape exr_graph [None; Some 0%N; Some 0%N; Some 1%N] = true.
+Proof. vm_compute. repeat split; reflexivity. Qed.
+
+(* a total initial store of that graph (signals hold the valuation, other names the steps
+   cannot assign hold zeros, x.1 x.2 x.3 are not assigned yet) *)
+Example C07_total_initial_store_example :
+  finit_total Z exr_graph (total_init exr_graph) /\ finit_ok Z zline 7 exr_graph (total_init exr_graph).
+Proof. split; [apply total_init_total|apply total_init_ok; vm_compute; reflexivity]. Qed.
+
+(* a family of concrete runs through the phi: operators modulo 7 (== compares residues),
+   the valuations rho |-> a = 1 + 7 rho (a line of valuation space on which the
+   signal-dependent condition a == 1 holds throughout), every run follows the path
+   0 -> 1 -> 3: x.1 = 1, then x.3 = phi(x.1, x.2) copies x.1, the version that arrives *)
+Definition exr_sem2 (op : infix_op) (x y : Z) : Z :=
+  match op with
+  | IAdd => (x + y) mod 7 | ISub => (x - y) mod 7 | IMul => (x * y) mod 7
+  | IDiv => (x * (y ^ 5 mod 7)) mod 7
+  | IEq => if x mod 7 =? y mod 7 then 1 else 0
+  | _ => 0
+  end.
+Definition exr_sem1 (op : prefix_op) (x : Z) : Z := match op with PNeg => (x * -1) mod 7 | _ => 0 end.
+Definition exr_S0 : fstore Z := fun x => if vname_eqb exa_a x then Some (fun _ rho => 1 + rho * 7) else None.
+Definition exr_s0 (rho : Z) : cstore := fun x => if vname_eqb exa_a x then Some (fun _ => 1 + rho * 7) else None.
+Definition exr_s (rho : Z) : cstore :=
+  cupd (cupd (exr_s0 rho) (exc_x 1) (Some (fun _ => 1 mod 7))) (exc_x 3) (Some (fun _ => 1 mod 7)).
+
+Example C07_concrete_runs_example :
+  (forall op, op_den 7 op (exr_sem2 op)) /\ (forall op, prefix_den 7 op (exr_sem1 op)) /\
+  djust_cfg exr_graph exr_idom = true /\
+  finit_ok Z zline 7 exr_graph exr_S0 /\
+  (forall rho, rel_store Z rho (exr_s0 rho) exr_S0) /\
+  (forall rho, cexec_path 7 exr_sem2 exr_sem1 (fun _ _ => 0) (fun _ => 0) exr_graph [] (exr_s0 rho) [0; 1; 3]%nat
+               = Some (exr_s rho)) /\
+  (* the other path is not a run of any of these valuations: the branch check refuses it *)
+  (forall rho, cexec_path 7 exr_sem2 exr_sem1 (fun _ _ => 0) (fun _ => 0) exr_graph [] (exr_s0 rho) [0; 2; 3]%nat = None) /\
+  djust_expr exr_graph (EVar (exc_x 3) (exa_k (Some (DConst, DNonQuad)))) = true /\
+  (forall rho, cval 7 exr_sem2 exr_sem1 (fun _ _ => 0) (fun _ => 0) (exr_s rho) (EVar (exc_x 3) (exa_k (Some (DConst, DNonQuad))))
+               = Some (fun _ => 1 mod 7)).
+Proof.
+  split; [intros []; cbn; auto; exists (fun y => y ^ 5 mod 7); reflexivity|].
+  split; [intros []; cbn; auto|].
+  split; [vm_compute; reflexivity|].
+  split.
+  { intros x F Hx. unfold exr_S0 in Hx. destruct (vname_eqb exa_a x) eqn:E; [|discriminate].
+    apply vname_eqb_eq in E. subst x. injection Hx as <-.
+    right. left. split; [reflexivity|]. split; [exists TSigIn; split; [reflexivity|discriminate]|].
+    intros i rho delta t. cbn [Dn]. unfold Dd, zline. replace (_ - _) with 0 by ring. reflexivity. }
+  split.
+  { intros rho x. unfold exr_s0, exr_S0. destruct (vname_eqb exa_a x); cbn; [intros i; reflexivity|exact I]. }
+  split; [intros rho; cbn; rewrite Z_mod_plus_full; reflexivity|].
+  split; [intros rho; cbn; rewrite Z_mod_plus_full; reflexivity|].
+  split; [vm_compute; reflexivity|].
+  intros rho. reflexivity.
+Qed.
+
+(* a family that really diverges at the signal-dependent branch: the signal a holds the
+   valuation rho itself; the runs with rho = 1 (mod 7) go 0 -> 1 -> 3 and their phi copies
+   x.1, the others go 0 -> 2 -> 3 and copy x.2; two runs with different arriving arguments
+   differ on the value of `a == 1`, the deciding condition of the join: every hypothesis of
+   C07_diverging_runs_claims_true holds *)
+Definition exd_S0 : fstore Z := fun x => if vname_eqb exa_a x then Some (fun _ rho => rho) else None.
+Definition exd_s0 (rho : Z) : cstore := fun x => if vname_eqb exa_a x then Some (fun _ => rho) else None.
+Definition exd_then (rho : Z) : bool := rho mod 7 =? 1.
+Definition exd_pth (rho : Z) : list nat := if exd_then rho then [0; 1; 3]%nat else [0; 2; 3]%nat.
+Definition exd_s (rho : Z) : cstore :=
+  if exd_then rho then cupd (cupd (exd_s0 rho) (exc_x 1) (Some (fun _ => 1 mod 7))) (exc_x 3) (Some (fun _ => 1 mod 7))
+  else cupd (cupd (exd_s0 rho) (exc_x 2) (Some (fun _ => 2 mod 7))) (exc_x 3) (Some (fun _ => 2 mod 7)).
+
+Example C07_diverging_runs_example :
+  djust_cfg exr_graph exr_idom = true /\ finit_ok Z zline 7 exr_graph exd_S0 /\
+  (forall rho, StronglySorted lt (exd_pth rho)) /\
+  (forall rho i, In i (exd_pth rho) -> (i < length (c_blocks exr_graph))%nat) /\
+  (forall rho, exists r, In r [1; 0] /\ exd_pth r = exd_pth rho) /\
+  single_assignment exr_graph /\ targets_start_undefined Z exr_graph exd_S0 /\
+  (forall rho, rel_store Z rho (exd_s0 rho) exd_S0) /\
+  (forall rho, cexec_path 7 exr_sem2 exr_sem1 (fun _ _ => 0) (fun _ => 0) exr_graph [] (exd_s0 rho) (exd_pth rho)
+               = Some (exd_s rho)) /\
+  picks_decided Z 7 exr_sem2 exr_sem1 (fun _ _ => 0) (fun _ => 0) exr_graph exr_idom [] exd_pth exd_s0 /\
+  (* and the two classes of runs end with different values of x.3 *)
+  (forall rho, cval 7 exr_sem2 exr_sem1 (fun _ _ => 0) (fun _ => 0) (exd_s rho) (EVar (exc_x 3) (exa_k (Some (DConst, DNonQuad))))
+               = Some (fun _ => if exd_then rho then 1 mod 7 else 2 mod 7)).
+Proof.
+  split; [vm_compute; reflexivity|].
+  split.
+  { intros x F Hx. unfold exd_S0 in Hx. destruct (vname_eqb exa_a x) eqn:E; [|discriminate].
+    apply vname_eqb_eq in E. subst x. injection Hx as <-.
+    right. left. split; [reflexivity|]. split; [exists TSigIn; split; [reflexivity|discriminate]|].
+    intros i rho delta t. cbn [Dn]. unfold Dd, zline. replace (_ - _) with 0 by ring. reflexivity. }
+  split; [intros rho; unfold exd_pth; destruct (exd_then rho); repeat constructor; lia|].
+  split; [intros rho i; unfold exd_pth; destruct (exd_then rho); cbn; intros [<-|[<-|[<-|[]]]]; lia|].
+  split.
+  { intros rho. unfold exd_pth. destruct (exd_then rho) eqn:E.
+    - exists 1. split; [left; reflexivity|reflexivity].
+    - exists 0. split; [right; left; reflexivity|reflexivity]. }
+  split.
+  { unfold single_assignment. vm_compute. repeat constructor; cbn; intuition discriminate. }
+  split.
+  { intros x Hx. vm_compute in Hx. destruct Hx as [<-|[<-|[<-|[]]]]; reflexivity. }
+  split.
+  { intros rho x. unfold exd_s0, exd_S0. destruct (vname_eqb exa_a x); cbn; [intros i; reflexivity|exact I]. }
+  split.
+  { intros rho. unfold exd_pth, exd_s. destruct (exd_then rho) eqn:E; unfold exd_then in E;
+      cbn; change ((1 mod 7) mod 7) with 1; rewrite E; reflexivity. }
+  split.
+  { intros a b Hb. destruct a as [|[|[|[|a]]]]; cbn in Hb; try (destruct a; discriminate); injection Hb as <-;
+      intros m x op args k sv stt Hin; cbn in Hin; try contradiction.
+    destruct Hin as [Hin|[]]. injection Hin as <- <- <- <- <- <- <-.
+    intros _ r1 r2 _ _ Hne.
+    assert (Harg : forall r, arg_of Z (fun rho => Lat Z exr_graph [] exd_pth rho 3) (exc_x 3) [exc_x 1; exc_x 2] r =
+                             if exd_then r then Some (exc_x 1) else Some (exc_x 2)).
+    { intros r. unfold arg_of, Lat, exd_pth. destruct (exd_then r); reflexivity. }
+    assert (Hent : forall r, exists st, ent Z 7 exr_sem2 exr_sem1 (fun _ _ => 0) (fun _ => 0) exr_graph [] exd_pth exd_s0 r 3 = st /\
+                    cval 7 exr_sem2 exr_sem1 (fun _ _ => 0) (fun _ => 0) st (exc_cond (Some (DNonQuad, DNonQuad))) =
+                    Some (fun _ => exr_sem2 IEq r (1 mod 7))).
+    { intros r. eexists. split; [reflexivity|]. unfold ent, E, exd_pth. destruct (exd_then r); reflexivity. }
+    rewrite !Harg in Hne.
+    split; [cbn; lia|].
+    exists (exc_cond (Some (DNonQuad, DNonQuad))), (fun _ => exr_sem2 IEq r1 (1 mod 7)), (fun _ => exr_sem2 IEq r2 (1 mod 7)).
+    split.
+    { exists 1%N, 0%N. eexists. exists exa_m, 1%N, (Some 2%N). split; [left; reflexivity|]. split; [|split; reflexivity].
+      cbn. eapply ab_up; [discriminate|reflexivity|apply ab_here]. }
+    destruct (Hent r1) as (st1 & <- & Hc1). destruct (Hent r2) as (st2 & <- & Hc2).
+    split; [exact Hc1|]. split; [exact Hc2|].
+    unfold exr_sem2. change ((1 mod 7) mod 7) with 1. unfold exd_then in Hne.
+    destruct (r1 mod 7 =? 1), (r2 mod 7 =? 1); try discriminate; congruence. }
+  intros rho. unfold exd_s. destruct (exd_then rho); reflexivity.
+Qed.
